@@ -8,13 +8,11 @@ namespace Mpt.Parse
 open Mpt.Render
 
 /-- what the formats of the flat styles share: no option start/end character, `=` assigns, default data part,
-    all name flags, regular end of input -/
+    regular end of input -/
 structure FlatCfg (cfg : Cfg) : Prop where
   ostart : cfg.fmt.ostart = 0
   assign : cfg.fmt.assign = 61
   data : DataFmt cfg.fmt
-  opt : cfg.opt = 0xff
-  sect : cfg.sect = 0xff
   eof : cfg.eof = -2
 
 theorem FlatCfg.hash {cfg : Cfg} (h : FlatCfg cfg) : HashOnly cfg.fmt := h.data.com
@@ -89,7 +87,7 @@ theorem run_opt_blanks (e : List (List UInt8)) (fi : UInt8) (v cur ln : Nat) :
     saved and declared valid): `name' pre = post value trail \n` through `mpt_parse_option` -/
 theorem option_rest (e : List (List UInt8)) (c0 : UInt8) (n' pre post tr rest : List UInt8) (fi : UInt8)
     (cur ln : Nat) (ov : Option (List UInt8)) (src : Src)
-    (hn : nameOk (c0 :: n') = true)
+    (hn : nameOk (c0 :: n') = true) (hnc : ncheck (c0 :: n') cfg.opt = none)
     (hpre : pre.all isBlank = true) (hpost : post.all isBlank = true) (htr : trailOk tr = true)
     (hval : match ov with | some x => x.isEmpty = true ∨ valueOk x = true | none => True)
     (hsrc : src.rest = n' ++ pre ++ 61 :: (post ++ valueText ov ++ tr ++ 10 :: rest)) :
@@ -111,7 +109,7 @@ theorem option_rest (e : List (List UInt8)) (c0 : UInt8) (n' pre post tr rest : 
     simp only [hnv, hos, Bool.false_and, Bool.false_eq_true, ↓reduceIte, addchar_keep]
     have hb := optBody_assign hc e ([c0] ++ [61]) true fi 1 (Flag.option ||| Flag.name) ln1
     simp only [hb, optExit]
-    have := nameThenData_line cfg hc.opt hc.data e [c0] [] fi ln1 .MissingBuffer post tr rest ov src1 hn hpost htr hval hr1
+    have := nameThenData_line cfg hc.data e [c0] [] fi ln1 .MissingBuffer post tr rest ov src1 hn hnc hpost htr hval hr1
     simpa using this
   | cons c1 n'' =>
     simp only [List.all_cons, Bool.and_eq_true] at hn'
@@ -135,7 +133,7 @@ theorem option_rest (e : List (List UInt8)) (c0 : UInt8) (n' pre post tr rest : 
       (post ++ valueText ov ++ tr ++ 10 :: rest) src1 _ _ _ (by simp [hr1, List.append_assoc]) hrun
       (by simp only [optStep, hsave]; exact optBody_assign hc _ _ _ _ _ _ _)
     simp only [hscan, optExit]
-    have := nameThenData_line cfg hc.opt hc.data e (c0 :: c1 :: n'') pre fi ln1 .MissingBuffer post tr rest ov src2 hn
+    have := nameThenData_line cfg hc.data e (c0 :: c1 :: n'') pre fi ln1 .MissingBuffer post tr rest ov src2 hn hnc
       hpost htr hval hr2
     simpa using this
 
@@ -153,7 +151,7 @@ structure OptStyle (k : Kind) (cfg : Cfg) : Prop where
   optLine : ∀ (e : List (List UInt8)) (s : St) (src : Src) (prev : Nat) (junk n pre post tr rest : List UInt8)
     (ov : Option (List UInt8)),
     Clean e s.path → s.valid = 0 → PrevOpt prev → visSkip false junk = some false → nameOk n = true →
-    pre.all isBlank = true → post.all isBlank = true → trailOk tr = true →
+    ncheck n cfg.opt = none → pre.all isBlank = true → post.all isBlank = true → trailOk tr = true →
     (match ov with | some x => x.isEmpty = true ∨ valueOk x = true | none => True) →
     src.rest = junk ++ n ++ pre ++ 61 :: (post ++ valueText ov ++ tr ++ 10 :: rest) →
     ∃ s' src', next k cfg prev s src = ((if (valueOf ov).isEmpty then 3 else 7 : Int), s', src')
@@ -169,7 +167,7 @@ structure SectStyle (k : Kind) (cfg : Cfg) (open_ close : List UInt8) : Prop ext
   /-- the header while no section is open: one call -/
   headFirst : ∀ (s : St) (src : Src) (prev : Nat) (junk n tr rest : List UInt8),
     Clean [] s.path → s.valid = 0 → (prev = 1 ∨ prev = 11) → visSkip false junk = some false → nameOk n = true →
-    headTrailOk tr = true → src.rest = junk ++ open_ ++ n ++ close ++ tr ++ 10 :: rest →
+    ncheck n cfg.sect = none → headTrailOk tr = true → src.rest = junk ++ open_ ++ n ++ close ++ tr ++ 10 :: rest →
     ∃ s' src' J', next k cfg prev s src = (1, s', src')
       ∧ (∃ l fi' v' ln', s' = Stt [n] l false fi' v' (Flag.section_ ||| Flag.name) ln')
       ∧ visSkip false J' = some false ∧ src'.rest = J' ++ rest
@@ -180,7 +178,7 @@ structure SectStyle (k : Kind) (cfg : Cfg) (open_ close : List UInt8) : Prop ext
     ∃ s1 src1, next k cfg prev s src = (2, s1, src1) ∧ s1.path = s.path ∧ s1.curr = Flag.sectEnd ∧ src1.rest = R
   /-- … and the next call reads the name -/
   headNext : ∀ (s : St) (src : Src) (n tr rest : List UInt8),
-    Clean [] s.path → s.valid = 0 → nameOk n = true → headTrailOk tr = true →
+    Clean [] s.path → s.valid = 0 → nameOk n = true → ncheck n cfg.sect = none → headTrailOk tr = true →
     src.rest = n ++ close ++ tr ++ 10 :: rest →
     ∃ s' src' J', next k cfg 2 s src = (1, s', src')
       ∧ (∃ l fi' v' ln', s' = Stt [n] l false fi' v' (Flag.section_ ||| Flag.name) ln')
@@ -193,10 +191,13 @@ structure SectStyle (k : Kind) (cfg : Cfg) (open_ close : List UInt8) : Prop ext
 /-! ### enclosed format with different start and end characters: options only -/
 
 /-- `{x} = #` -/
-abbrev cfgE : Cfg := { fmt := { sstart := 123, send := 125 } }
+abbrev cfgE (fs fo : Nat) : Cfg := { fmt := { sstart := 123, send := 125 }, sect := fs, opt := fo }
 
-theorem cfgE_desc : parseFormat (Style.desc .enc) = (cfgE.fmt, 120) := by decide +kernel
-theorem flatCfg_E : FlatCfg cfgE := ⟨rfl, rfl, ⟨rfl, rfl, rfl⟩, rfl, rfl, rfl⟩
+variable {fs fo : Nat}
+
+theorem cfgE_desc0 : parseFormat (Style.desc .enc) = ((cfgE 0 0).fmt, 120) := by decide +kernel
+theorem cfgE_desc : parseFormat (Style.desc .enc) = ((cfgE fs fo).fmt, 120) := cfgE_desc0
+theorem flatCfg_E : FlatCfg (cfgE fs fo) := ⟨rfl, rfl, ⟨rfl, rfl, rfl⟩, rfl⟩
 
 /-- an option line through `mpt_parse_format_enc` (any start/end characters that are no name characters) -/
 theorem enc_option_line {cfg : Cfg} (hc : FlatCfg cfg) (hss : nameChar cfg.fmt.sstart = false)
@@ -204,7 +205,7 @@ theorem enc_option_line {cfg : Cfg} (hc : FlatCfg cfg) (hss : nameChar cfg.fmt.s
     (e : List (List UInt8)) (s : St) (src : Src) (prev : Nat) (junk n pre post tr rest : List UInt8)
     (ov : Option (List UInt8))
     (hclean : Clean e s.path) (hv : s.valid = 0) (hprev : PrevOpt prev ∨ (cfg.fmt.sstart == cfg.fmt.send) = false)
-    (hj : visSkip false junk = some false) (hn : nameOk n = true)
+    (hj : visSkip false junk = some false) (hn : nameOk n = true) (hnc : ncheck n cfg.opt = none)
     (hpre : pre.all isBlank = true) (hpost : post.all isBlank = true) (htr : trailOk tr = true)
     (hval : match ov with | some x => x.isEmpty = true ∨ valueOk x = true | none => True)
     (hsrc : src.rest = junk ++ n ++ pre ++ 61 :: (post ++ valueText ov ++ tr ++ 10 :: rest)) :
@@ -235,7 +236,7 @@ theorem enc_option_line {cfg : Cfg} (hc : FlatCfg cfg) (hss : nameChar cfg.fmt.s
       · have : c0 = cfg.fmt.send := by simpa using hh
         rw [this] at hn'; rw [hse'] at hn'; simp at hn'
     have hos : (cfg.fmt.ostart != 0) = false := by rw [hc.ostart]; rfl
-    have hopt := option_rest hc e c0 n' pre post tr rest s.path.first s.curr ln ov src1 hn hpre hpost htr hval hr1
+    have hopt := option_rest hc e c0 n' pre post tr rest s.path.first s.curr ln ov src1 hn hnc hpre hpost htr hval hr1
     have hmv : ({ ({ s with line := ln } : St) with path := ({ s with line := ln } : St).path.addchar c0 } : St).markValid
         = Stt e [c0] true s.path.first 1 s.curr ln := by
       simp only [addchar_clean hclean c0, hv]
@@ -259,10 +260,11 @@ theorem enc_option_line {cfg : Cfg} (hc : FlatCfg cfg) (hss : nameChar cfg.fmt.s
 /-! ### enclosed format with one character for start and end: `|name` -/
 
 /-- `|x| = #` -/
-abbrev cfgBar : Cfg := { fmt := { sstart := 124, send := 124 } }
+abbrev cfgBar (fs fo : Nat) : Cfg := { fmt := { sstart := 124, send := 124 }, sect := fs, opt := fo }
 
-theorem cfgBar_desc : parseFormat (Style.desc .bar) = (cfgBar.fmt, 120) := by decide +kernel
-theorem flatCfg_Bar : FlatCfg cfgBar := ⟨rfl, rfl, ⟨rfl, rfl, rfl⟩, rfl, rfl, rfl⟩
+theorem cfgBar_desc0 : parseFormat (Style.desc .bar) = ((cfgBar 0 0).fmt, 120) := by decide +kernel
+theorem cfgBar_desc : parseFormat (Style.desc .bar) = ((cfgBar fs fo).fmt, 120) := cfgBar_desc0
+theorem flatCfg_Bar : FlatCfg (cfgBar fs fo) := ⟨rfl, rfl, ⟨rfl, rfl, rfl⟩, rfl⟩
 
 /-- the character behind a header and what is left of the line -/
 theorem trail_head (tr : List UInt8) (h : trailOk tr = true) :
@@ -314,7 +316,7 @@ theorem run_enc_name (e : List (List UInt8)) (fi : UInt8) (cur ln : Nat) :
 
 /-- a section name behind the start character, ended by white space -/
 theorem encSection_name (e : List (List UInt8)) (s : St) (src : Src) (n : List UInt8) (t : UInt8) (rest : List UInt8)
-    (hclean : Clean e s.path) (hv : s.valid = 0) (hn : nameOk n = true)
+    (hclean : Clean e s.path) (hv : s.valid = 0) (hn : nameOk n = true) (hnc0 : ncheck n cfg.sect = none)
     (ht : isspace t = true) (ht0 : t ≠ 0) (hsrc : src.rest = n ++ t :: rest) :
     ∃ l fi' ln' src', encSection cfg s src = (1, Stt (e ++ [n]) l false fi' 0 (Flag.section_ ||| Flag.name) ln', src')
       ∧ src'.rest = rest := by
@@ -359,13 +361,13 @@ theorem encSection_name (e : List (List UInt8)) (s : St) (src : Src) (n : List U
     have hname : (Stt e ([c0] ++ n' ++ [t]) true s.path.first ([c0] ++ n').length (Flag.section_ ||| Flag.name)
         (if t == 10 then ln + 1 else ln)).name = c0 :: n' := by
       simp only [St.name, head_pth, htake]
-    have hnc : ncheck (c0 :: n') cfg.sect = none := by rw [hc.sect]; exact ncheck_all _
+    have hnc : ncheck (c0 :: n') cfg.sect = none := hnc0
     simp only [hname, hnc, hadd]
     rfl
 
 /-- a section name behind the start character, ended by a comment glued to it -/
 theorem encSection_comment (e : List (List UInt8)) (s : St) (src : Src) (n txt rest : List UInt8)
-    (hclean : Clean e s.path) (hv : s.valid = 0) (hn : nameOk n = true)
+    (hclean : Clean e s.path) (hv : s.valid = 0) (hn : nameOk n = true) (hnc0 : ncheck n cfg.sect = none)
     (htxt : txt.contains 10 = false) (hsrc : src.rest = n ++ 35 :: (txt ++ 10 :: rest)) :
     ∃ l fi' ln' src', encSection cfg s src = (1, Stt (e ++ [n]) l false fi' 0 (Flag.section_ ||| Flag.name) ln', src')
       ∧ src'.rest = rest := by
@@ -412,13 +414,14 @@ theorem encSection_comment (e : List (List UInt8)) (s : St) (src : Src) (n txt r
     have hname : (Stt e ([c0] ++ n' ++ [35]) true s.path.first ([c0] ++ n').length (Flag.section_ ||| Flag.name)
         ln3).name = c0 :: n' := by
       simp only [St.name, head_pth, htake]
-    have hnc : ncheck (c0 :: n') cfg.sect = none := by rw [hc.sect]; exact ncheck_all _
+    have hnc : ncheck (c0 :: n') cfg.sect = none := hnc0
     simp only [hname, hnc, hadd]
     rfl
 
 /-- a section header `name` + what may follow it on the line -/
 theorem encSection_head (e : List (List UInt8)) (s : St) (src : Src) (n tr rest : List UInt8)
-    (hclean : Clean e s.path) (hv : s.valid = 0) (hn : nameOk n = true) (htr : headTrailOk tr = true)
+    (hclean : Clean e s.path) (hv : s.valid = 0) (hn : nameOk n = true) (hnc0 : ncheck n cfg.sect = none)
+    (htr : headTrailOk tr = true)
     (hsrc : src.rest = n ++ tr ++ 10 :: rest) :
     ∃ l fi' ln' src' J', encSection cfg s src = (1, Stt (e ++ [n]) l false fi' 0 (Flag.section_ ||| Flag.name) ln', src')
       ∧ visSkip false J' = some false ∧ src'.rest = J' ++ rest := by
@@ -432,7 +435,7 @@ theorem encSection_head (e : List (List UInt8)) (s : St) (src : Src) (n tr rest 
         have := congrArg (· ++ rest) hsplit
         simpa [List.append_assoc] using this
       simp [List.append_assoc, this]
-    obtain ⟨l, fi', ln', src2, hes, hr2⟩ := encSection_name hc e s src n t (J' ++ rest) hclean hv hn ht ht0 hsrc'
+    obtain ⟨l, fi', ln', src2, hes, hr2⟩ := encSection_name hc e s src n t (J' ++ rest) hclean hv hn hnc0 ht ht0 hsrc'
     exact ⟨l, fi', ln', src2, J', hes, hJ', hr2⟩
   · cases tr with
     | nil => cases htr
@@ -440,27 +443,27 @@ theorem encSection_head (e : List (List UInt8)) (s : St) (src : Src) (n tr rest 
       simp only [Bool.and_eq_true, beq_iff_eq, Bool.not_eq_eq_eq_not, Bool.not_true] at htr
       obtain ⟨hc35, htxt⟩ := htr
       subst hc35
-      obtain ⟨l, fi', ln', src2, hes, hr2⟩ := encSection_comment hc e s src n txt rest hclean hv hn htxt
+      obtain ⟨l, fi', ln', src2, hes, hr2⟩ := encSection_comment hc e s src n txt rest hclean hv hn hnc0 htxt
         (by rw [hsrc]; simp [List.append_assoc])
       exact ⟨l, fi', ln', src2, [], hes, rfl, by simpa using hr2⟩
 
 end encname
 
-theorem sectStyle_Bar : SectStyle .enc cfgBar [124] [] where
+theorem sectStyle_Bar : SectStyle .enc (cfgBar fs fo) [124] [] where
   optLine := by
     intro e s src prev junk n pre post tr rest ov h1 h2 h3 h4 h5 h6 h7 h8 h9 h10
     simp only [next]
-    exact enc_option_line flatCfg_Bar (by decide) (by decide) e s src prev junk n pre post tr rest ov h1 h2 (Or.inl h3) h4 h5 h6 h7 h8 h9 h10
+    exact enc_option_line (flatCfg_Bar (fs := fs) (fo := fo)) (by decide) (by decide) e s src prev junk n pre post tr rest ov h1 h2 (Or.inl h3) h4 h5 h6 h7 h8 h9 h10
   eof := by
     intro s src prev junk b _ hprev hj hsrc
-    obtain ⟨ln, src1, hnv, _⟩ := nextvis_end flatCfg_Bar.hash junk b s src hj hsrc
+    obtain ⟨ln, src1, hnv, _⟩ := nextvis_end (flatCfg_Bar (fs := fs) (fo := fo)).hash junk b s src hj hsrc
     have hp2 : (prev == Flag.sectEnd) = false := by rcases hprev with h | h | h <;> subst h <;> decide
     refine ⟨{ s with line := ln, curr := 0 }, src1, ?_⟩
     simp only [next, parseFormatEnc]
     simp [hnv, hp2]
   eofOpen := by
     intro m s src prev junk b _ hprev hj hsrc
-    obtain ⟨ln, src1, hnv, _⟩ := nextvis_end flatCfg_Bar.hash junk b s src hj hsrc
+    obtain ⟨ln, src1, hnv, _⟩ := nextvis_end (flatCfg_Bar (fs := fs) (fo := fo)).hash junk b s src hj hsrc
     refine ⟨{ s with line := ln, curr := 0 }, src1, ?_⟩
     simp only [next, parseFormatEnc]
     have hp2 : (prev == Flag.sectEnd) = false := by rcases hprev with h | h <;> subst h <;> decide
@@ -469,9 +472,9 @@ theorem sectStyle_Bar : SectStyle .enc cfgBar [124] [] where
     intro s src prev junk n tr rest hclean hv hprev hj hn htr hsrc
     have hsrc' : src.rest = junk ++ 124 :: (n ++ tr ++ 10 :: rest) := by
       rw [hsrc]; simp [List.append_assoc]
-    obtain ⟨ln, src1, hnv, hr1⟩ := nextvis_skip flatCfg_Bar.hash junk 124 _ s src hj (by decide) hsrc'
+    obtain ⟨ln, src1, hnv, hr1⟩ := nextvis_skip (flatCfg_Bar (fs := fs) (fo := fo)).hash junk 124 _ s src hj (by decide) hsrc'
     have hclean1 : Clean [] ({ s with line := ln } : St).path := hclean
-    obtain ⟨l, fi', ln', src2, J', hes, hJ', hr2⟩ := encSection_head flatCfg_Bar [] { s with line := ln } src1 n tr rest
+    obtain ⟨l, fi', ln', src2, J', hes, hJ', hr2⟩ := encSection_head (flatCfg_Bar (fs := fs) (fo := fo)) [] { s with line := ln } src1 n tr rest
       hclean1 hv hn htr hr1
     have hp2 : (prev == Flag.sectEnd) = false := by rcases hprev with h | h <;> subst h <;> decide
     have hem : s.path.elems.isEmpty = true := by rw [hclean.1]; rfl
@@ -480,7 +483,7 @@ theorem sectStyle_Bar : SectStyle .enc cfgBar [124] [] where
     simp [hp2, hnv, hem, hes]
   headEnd := by
     intro m s src prev junk R hclean _ hprev hj hsrc
-    obtain ⟨ln, src1, hnv, hr1⟩ := nextvis_skip flatCfg_Bar.hash junk 124 R s src hj (by decide) (by simpa using hsrc)
+    obtain ⟨ln, src1, hnv, hr1⟩ := nextvis_skip (flatCfg_Bar (fs := fs) (fo := fo)).hash junk 124 R s src hj (by decide) (by simpa using hsrc)
     have hem : s.path.elems.isEmpty = false := by rw [hclean.1]; rfl
     refine ⟨{ s with line := ln, curr := Flag.sectEnd }, src1, ?_, rfl, rfl, hr1⟩
     simp only [next, parseFormatEnc]
@@ -491,7 +494,7 @@ theorem sectStyle_Bar : SectStyle .enc cfgBar [124] [] where
     intro s src n tr rest hclean hv hn htr hsrc
     have hsrc' : src.rest = n ++ tr ++ 10 :: rest := by
       rw [hsrc]; simp [List.append_assoc]
-    obtain ⟨l, fi', ln', src2, J', hes, hJ', hr2⟩ := encSection_head flatCfg_Bar [] s src n tr rest hclean hv hn htr hsrc'
+    obtain ⟨l, fi', ln', src2, J', hes, hJ', hr2⟩ := encSection_head (flatCfg_Bar (fs := fs) (fo := fo)) [] s src n tr rest hclean hv hn htr hsrc'
     refine ⟨_, src2, J', ?_, ⟨l, fi', 0, ln', rfl⟩, hJ', hr2⟩
     simp only [next, parseFormatEnc]
     simp [hes, Flag.sectEnd]
@@ -500,10 +503,11 @@ theorem sectStyle_Bar : SectStyle .enc cfgBar [124] [] where
 /-! ### separated format: `[name]` -/
 
 /-- `[ ] = #` -/
-abbrev cfgS : Cfg := { fmt := { sstart := 91, send := 93 } }
+abbrev cfgS (fs fo : Nat) : Cfg := { fmt := { sstart := 91, send := 93 }, sect := fs, opt := fo }
 
-theorem cfgS_desc : parseFormat (Style.desc .sep) = (cfgS.fmt, 32) := by decide +kernel
-theorem flatCfg_S : FlatCfg cfgS := ⟨rfl, rfl, ⟨rfl, rfl, rfl⟩, rfl, rfl, rfl⟩
+theorem cfgS_desc0 : parseFormat (Style.desc .sep) = ((cfgS 0 0).fmt, 32) := by decide +kernel
+theorem cfgS_desc : parseFormat (Style.desc .sep) = ((cfgS fs fo).fmt, 32) := cfgS_desc0
+theorem flatCfg_S : FlatCfg (cfgS fs fo) := ⟨rfl, rfl, ⟨rfl, rfl, rfl⟩, rfl⟩
 
 theorem getc_cons (src : Src) (c : UInt8) (r : List UInt8) (h : src.rest = c :: r) :
     ∃ src1, getc src = (some c, src1) ∧ src1.rest = r := by
@@ -513,14 +517,14 @@ theorem getc_cons (src : Src) (c : UInt8) (r : List UInt8) (h : src.rest = c :: 
 
 theorem sepBody_name (e : List (List UInt8)) (l : List UInt8) (k : Bool) (fi : UInt8) (v cur ln : Nat) (c : UInt8)
     (hn : nameChar c = true) :
-    sepBody cfgS.fmt (Stt e l k fi v cur ln) c = .more (Stt e l (k || !l.isEmpty) fi l.length cur ln) := by
+    sepBody (cfgS fs fo).fmt (Stt e l k fi v cur ln) c = .more (Stt e l (k || !l.isEmpty) fi l.length cur ln) := by
   obtain ⟨h0, _, h35, _, _, _, _, _, h93, _, _, _, hsp⟩ := nameChar_facts c hn
-  have hcom : cfgS.fmt.isComment c = false := by rw [flatCfg_S.hash.isComment]; simp [h35]
+  have hcom : (cfgS fs fo).fmt.isComment c = false := by rw [(flatCfg_S (fs := fs) (fo := fo)).hash.isComment]; simp [h35]
   unfold sepBody
   simp [h93, hsp, hcom]
 
 /-- the loop of the section name -/
-abbrev sepStep : St → UInt8 → Step St SepExit := fun s c => sepBody cfgS.fmt (s.save c) c
+abbrev sepStep : St → UInt8 → Step St SepExit := fun s c => sepBody (cfgS fs fo).fmt (s.save c) c
 
 theorem run_sep_name (e : List (List UInt8)) (fi : UInt8) (cur ln : Nat) :
     ∀ (w l : List UInt8), w.all nameChar = true →
@@ -541,8 +545,9 @@ theorem run_sep_name (e : List (List UInt8)) (fi : UInt8) (cur ln : Nat) :
 
 /-- a section name up to the closing bracket -/
 theorem sepFirst_name (e : List (List UInt8)) (s : St) (src : Src) (n rest : List UInt8)
-    (hclean : Clean e s.path) (hv : s.valid = 0) (hn : nameOk n = true) (hsrc : src.rest = n ++ 93 :: rest) :
-    ∃ l fi' v' ln' src', sepFirst cfgS s src
+    (hclean : Clean e s.path) (hv : s.valid = 0) (hn : nameOk n = true) (hnc0 : ncheck n fs = none)
+    (hsrc : src.rest = n ++ 93 :: rest) :
+    ∃ l fi' v' ln' src', sepFirst (cfgS fs fo) s src
         = (1, Stt (e ++ [n]) l false fi' v' (Flag.section_ ||| Flag.name) ln', src')
       ∧ src'.rest = rest := by
   have hn' := hn
@@ -582,7 +587,7 @@ theorem sepFirst_name (e : List (List UInt8)) (s : St) (src : Src) (n rest : Lis
       (if e.isEmpty = true then UInt8.ofNat ([c0] ++ n').length else s.path.first), ([c0] ++ n').length, s.line,
       src2, ?_, hr2⟩
     unfold sepFirst
-    have hne : (cfgS.fmt.send != cfgS.fmt.sstart) = true := by decide
+    have hne : ((cfgS fs fo).fmt.send != (cfgS fs fo).fmt.sstart) = true := by decide
     simp only [hne, ↓reduceIte, hg, hsave]
     unfold sepName
     rw [sepBody_name _ _ _ _ _ _ _ _ hn'.1.2.1]
@@ -592,11 +597,11 @@ theorem sepFirst_name (e : List (List UInt8)) (s : St) (src : Src) (n rest : Lis
     have hname : (Stt e ([c0] ++ n' ++ [93]) true s.path.first ([c0] ++ n').length (Flag.section_ ||| Flag.name)
         s.line).name = c0 :: n' := by
       simp only [St.name, head_pth, htake]
-    have hnc : ncheck (c0 :: n') cfgS.sect = none := ncheck_all _
+    have hnc : ncheck (c0 :: n') (cfgS fs fo).sect = none := hnc0
     simp only [hname, hnc, hadd]
     rfl
 
-theorem sectStyle_Sep : SectStyle .sep cfgS [91] [93] where
+theorem sectStyle_Sep : SectStyle .sep (cfgS fs fo) [91] [93] where
   optLine := by
     intro e s src prev junk n pre post tr rest ov hclean hv hprev hj hn hpre hpost htr hval hsrc
     have hn' := hn
@@ -608,16 +613,16 @@ theorem sectStyle_Sep : SectStyle .sep cfgS [91] [93] where
       simp only [List.all_cons, Bool.and_eq_true] at hn'
       obtain ⟨h0, _, h35, _, _, _, _, h91, _, _, _, _, hsp⟩ := nameChar_facts c0 hn'.1.2.1
       have hvis : visible c0 = true := by simp [visible, h0, hsp, h35]
-      obtain ⟨ln, src1, hnv, hr1⟩ := nextvis_skip flatCfg_S.hash junk c0
+      obtain ⟨ln, src1, hnv, hr1⟩ := nextvis_skip (flatCfg_S (fs := fs) (fo := fo)).hash junk c0
         (n' ++ pre ++ 61 :: (post ++ valueText ov ++ tr ++ 10 :: rest)) s src hj hvis
         (by simp [hsrc, List.append_assoc])
       have hp2 : (prev &&& 0xf == Flag.sectEnd) = false := by
         rcases hprev with h | h | h <;> subst h <;> decide
-      have hopt := option_rest flatCfg_S e c0 n' pre post tr rest s.path.first Flag.name ln ov src1 hn hpre hpost htr
+      have hopt := option_rest (flatCfg_S (fs := fs) (fo := fo)) e c0 n' pre post tr rest s.path.first Flag.name ln ov src1 hn hpre hpost htr
         hval hr1
       simp only [next, parseFormatSep, hp2, Bool.false_eq_true, ↓reduceIte, hnv, bne_iff_ne, ne_eq]
-      have h1 : ¬ c0 = cfgS.fmt.sstart := h91
-      have h2 : ¬ c0 = cfgS.fmt.ostart := h0
+      have h1 : ¬ c0 = (cfgS fs fo).fmt.sstart := h91
+      have h2 : ¬ c0 = (cfgS fs fo).fmt.ostart := h0
       simp only [h1, h2, not_false_eq_true, ↓reduceIte]
       rw [addchar_clean hclean c0]
       simp only [hv, markValid_stt, List.isEmpty_cons, Bool.not_false, Bool.or_true, List.length_cons,
@@ -625,14 +630,14 @@ theorem sectStyle_Sep : SectStyle .sep cfgS [91] [93] where
       exact hopt
   eof := by
     intro s src prev junk b _ hprev hj hsrc
-    obtain ⟨ln, src1, hnv, _⟩ := nextvis_end flatCfg_S.hash junk b s src hj hsrc
+    obtain ⟨ln, src1, hnv, _⟩ := nextvis_end (flatCfg_S (fs := fs) (fo := fo)).hash junk b s src hj hsrc
     have hp2 : (prev &&& 0xf == Flag.sectEnd) = false := by rcases hprev with h | h | h <;> subst h <;> decide
     refine ⟨{ s with line := ln }, src1, ?_⟩
     simp only [next, parseFormatSep]
     simp [hnv, hp2]
   eofOpen := by
     intro m s src prev junk b _ hprev hj hsrc
-    obtain ⟨ln, src1, hnv, _⟩ := nextvis_end flatCfg_S.hash junk b s src hj hsrc
+    obtain ⟨ln, src1, hnv, _⟩ := nextvis_end (flatCfg_S (fs := fs) (fo := fo)).hash junk b s src hj hsrc
     refine ⟨{ s with line := ln }, src1, ?_⟩
     simp only [next, parseFormatSep]
     have hp2 : (prev &&& 0xf == Flag.sectEnd) = false := by rcases hprev with h | h <;> subst h <;> decide
@@ -642,7 +647,7 @@ theorem sectStyle_Sep : SectStyle .sep cfgS [91] [93] where
     intro s src prev junk n tr rest hclean hv hprev hj hn htr hsrc
     have hsrc' : src.rest = junk ++ 91 :: (n ++ 93 :: ((tr ++ [10]) ++ rest)) := by
       rw [hsrc]; simp [List.append_assoc]
-    obtain ⟨ln, src1, hnv, hr1⟩ := nextvis_skip flatCfg_S.hash junk 91 _ s src hj (by decide) hsrc'
+    obtain ⟨ln, src1, hnv, hr1⟩ := nextvis_skip (flatCfg_S (fs := fs) (fo := fo)).hash junk 91 _ s src hj (by decide) hsrc'
     have hclean1 : Clean [] ({ s with line := ln, curr := Flag.section_ } : St).path := hclean
     obtain ⟨l, fi', v', ln', src2, hes, hr2⟩ := sepFirst_name [] { s with line := ln, curr := Flag.section_ } src1 n
       ((tr ++ [10]) ++ rest) hclean1 hv hn hr1
@@ -653,7 +658,7 @@ theorem sectStyle_Sep : SectStyle .sep cfgS [91] [93] where
     simp [hp2, hnv, hem, hes]
   headEnd := by
     intro m s src prev junk R hclean _ hprev hj hsrc
-    obtain ⟨ln, src1, hnv, hr1⟩ := nextvis_skip flatCfg_S.hash junk 91 R s src hj (by decide) (by simpa using hsrc)
+    obtain ⟨ln, src1, hnv, hr1⟩ := nextvis_skip (flatCfg_S (fs := fs) (fo := fo)).hash junk 91 R s src hj (by decide) (by simpa using hsrc)
     have hem : s.path.elems.isEmpty = false := by rw [hclean.1]; rfl
     refine ⟨{ s with line := ln, curr := Flag.sectEnd }, src1, ?_, rfl, rfl, hr1⟩
     simp only [next, parseFormatSep]
